@@ -34,6 +34,8 @@ fn block_types() -> Vec<Query> {
         q(vec![], Some([Some(3), None, None]), true),
         q(vec![], Some([None, Some(1), None]), false),
         q(vec![], Some([Some(1), Some(2), None]), true),
+        // lovelace that the token holders alone cannot cover: tempts a selector to reach for a UTxO that is gone
+        q(vec![], Some([Some(3), Some(1), None]), true),
         q(vec![0], None, false),
         q(vec![0, 1], Some([Some(1), None, None]), true),
     ]
@@ -61,7 +63,8 @@ fn multisets(m: usize, k: usize, cur: &mut Vec<usize>, start: usize, f: &mut dyn
     }
 }
 
-const NAMES: [&str; 4] = ["a", "b", "c", "d"];
+// two names sort before "collateral" and two after it (blocks are visited in name order)
+const NAMES: [&str; 4] = ["a", "b", "x", "y"];
 
 /// Runs a template with the given blocks; `names[i]` is the name of source block i.
 /// Returns per-block selections in NAME order, or the error kind.
@@ -88,7 +91,10 @@ fn run_blocks(
         });
     }
     let tx = AnyTir::V1Beta0(tx).apply_fees(0).map_err(|e| format!("apply_fees:{e}"))?;
-    let res = pollster::block_on(tx3_resolver::inputs::resolve(tx, store)).map_err(|e| c03::err_kind(&e))?;
+    let res = pollster::block_on(tx3_resolver::inputs::resolve(tx, store)).map_err(|e| match &e {
+        tx3_resolver::Error::InputNotResolved(name, ..) => format!("InputNotResolved:{name}"),
+        other => c03::err_kind(other),
+    })?;
     let AnyTir::V1Beta0(t) = &res;
     let mut out = vec![];
     for (i, inp) in t.inputs.iter().enumerate() {
@@ -138,7 +144,44 @@ fn judge_run(
     };
     match res {
         Err(kind) => {
-            o.class(format!("err:{kind}"));
+            o.class(format!("err:{}", kind.split(':').next().unwrap_or("?")));
+            // per-block completeness: the block that was reported unresolved must really have no candidate
+            // (or set) left once the blocks visited before it are served
+            if let Some(failed) = kind.strip_prefix("InputNotResolved:") {
+                let mut order: Vec<(String, Option<usize>)> = (0..blocks.len()).map(|i| (NAMES[names[i]].to_string(), Some(i))).collect();
+                if collateral {
+                    order.push(("collateral".to_string(), None));
+                }
+                order.sort();
+                let before: Vec<usize> = order.iter().take_while(|(n, _)| n != failed).filter_map(|(_, i)| *i).collect();
+                let collateral_before = collateral && order.iter().take_while(|(n, _)| n != failed).any(|(n, _)| n == "collateral");
+                // what the earlier blocks took (selection is a function of the store: re-running the prefix gives it)
+                let pre_blocks: Vec<Query> = before.iter().map(|i| blocks[*i].clone()).collect();
+                let pre_names: Vec<usize> = before.iter().map(|i| names[*i]).collect();
+                let store2 = c03::make_store(cs);
+                *store2.order_plan.lock().unwrap() = plan.clone();
+                let mut taken: Vec<usize> = vec![];
+                if let Ok((sels, _)) = run_blocks(&store2, &pre_blocks, &pre_names, collateral_before) {
+                    for (_, _, sel) in &sels {
+                        taken.extend(positions(cs, sel));
+                    }
+                }
+                let failed_query = if failed == "collateral" {
+                    Some(Query { address: Some(0), refs: vec![], min: Some([Some(1), None, None]), many: false, collateral: true })
+                } else {
+                    (0..blocks.len()).find(|i| NAMES[names[*i]] == failed).map(|i| blocks[i].clone())
+                };
+                if let Some(q) = failed_query {
+                    let mut vs = vec![];
+                    c03::judge(cs, &q, &taken, &Sel::Err("InputNotResolved".into()), &mut vs);
+                    for (sig, what) in vs {
+                        o.violate(
+                            Violation::new(format!("multi-block|{sig}"), format!("block {failed} reported unresolved after earlier blocks took {taken:?}: {what}"))
+                                .with_detail(detail()),
+                        );
+                    }
+                }
+            }
         }
         Ok((sels, resolved)) => {
             o.class("resolved");
@@ -250,13 +293,16 @@ fn run_case(store_idx: &[usize], tuple: &[usize], collateral: bool, perms: bool)
         let fetched = judge_run(&cs, &blocks, &names, collateral, vec![], &mut o);
         // candidate-set orders of the first two fetches
         if p == 0 && fetched.iter().take(2).any(|n| *n >= 2) {
+            // every order of the first candidate set, and (separately) of the second
             let f0 = fetched.first().copied().unwrap_or(0).min(4);
-            let f1 = fetched.get(1).copied().unwrap_or(0).min(3);
-            for r0 in 0..factorial(f0) {
-                for r1 in 0..factorial(f1) {
-                    judge_run(&cs, &blocks, &names, collateral, vec![r0, r1], &mut o);
-                    o.count("candidate_orders_enumerated", 1);
-                }
+            let f1 = fetched.get(1).copied().unwrap_or(0).min(4);
+            for r0 in 1..factorial(f0) {
+                judge_run(&cs, &blocks, &names, collateral, vec![r0, 0], &mut o);
+                o.count("candidate_orders_enumerated", 1);
+            }
+            for r1 in 1..factorial(f1) {
+                judge_run(&cs, &blocks, &names, collateral, vec![0, r1], &mut o);
+                o.count("candidate_orders_enumerated", 1);
             }
         }
     }
@@ -272,8 +318,8 @@ impl Prop for C04 {
     fn rule(&self, tier: Tier) -> String {
         format!(
             "complete product: every multiset store of <= 4 UTxOs at one address (lovelace 1..2 x T1 0..1) x every ordered tuple of k <= {} \
-             overlapping block types (8 types: single/many, lovelace / token thresholds, equal and overlapping refs) x with/without collateral; \
-             every assignment of names to source positions (k <= 3); every iteration order of the candidate sets of the first two blocks. \
+             overlapping block types (9 types: single/many, lovelace / token thresholds, equal and overlapping refs) x with/without collateral; \
+             every assignment of names to source positions (k <= 3); every iteration order of the candidate set of the first block and of the second block. \
              Oracle: pairwise disjoint selections (collateral exempt), every block sound w.r.t. what earlier blocks took, emitted input list = \
              union of selections without duplicates. Non-trivial = resolution returned (Ok or Err) and was judged; distinct = (store, tuple, collateral).",
             if tier.is_thorough() { 4 } else { 3 }
@@ -282,7 +328,7 @@ impl Prop for C04 {
 
     fn assumptions(&self) -> Vec<String> {
         vec![
-            "no global completeness is asserted: the greedy, name-ordered allocation may fail where a matching exists".into(),
+            "no global completeness is asserted (the greedy, name-ordered allocation may fail where a matching exists); the block reported unresolved must have no candidate left given what the blocks before it took".into(),
             "stores and block types outside the alphabets are not covered".into(),
         ]
     }
